@@ -62,7 +62,9 @@ def draw_cfg(st):
         cfg["traced"] = ["_output.py", "_action.py"]
         cfg["max_ops"] = min(cfg["max_ops"], 20)
     # messages logged before the first add_destinations: re-delivered to (possibly failing) destinations
-    cfg["prebuffer"] = [0, 0, 1, 3, 8][st.choose(5, "prebuffer")] if world == "seq" else 0
+    cfg["prebuffer"] = ([0, 0, 1, 3, 8, 0, 0, 2] * 6 + [0, 1003])[st.choose(50, "prebuffer")] if world == "seq" else 0
+    if cfg["prebuffer"] > 100:
+        cfg["call_budget"] = 20000000      # re-delivering a full buffer to failing destinations is one long call
     n = 1 + st.choose(5, "n-dests")
     cfg["dests"] = [{"mask": MASKS[st.choose(len(MASKS), "mask")], "exc": st.choose(6, "exc-kind")}
                     for _ in range(n)]
@@ -84,10 +86,20 @@ def setup(rc, interp):
     rc.registered = []
     ds = [_mk(rc, s) for s in rc.cfg["dests"]]
     rc.pre = []
-    for k in range(rc.cfg.get("prebuffer", 0)):
+    npre = rc.cfg.get("prebuffer", 0)
+    for k in range(npre):
         nid = -(k + 1)
         rc.pre.append(("msg", nid))
-        interp.api(("msg", nid), rc.eliot.log_message, message_type="c08:pre", nid=nid)
+        if npre > 100:
+            rc.eliot.log_message(message_type="c08:pre", nid=nid)
+            rc.returns.append((rc.stamp(), -nid, ("msg", nid)))
+        else:
+            interp.api(("msg", nid), rc.eliot.log_message, message_type="c08:pre", nid=nid)
+    if npre > 1000:
+        # only the most recent 1000 are retained
+        drop = set(("msg", -(k + 1)) for k in range(npre - 1000))
+        rc.returns[:] = [r for r in rc.returns if r[2] not in drop]
+        rc.probe("prebuffered_over_1000")
     if rc.pre:
         rc.probe("prebuffered_redelivery")
     t = rc.stamp()          # registered from here on: the buffered backlog is re-delivered *during* the add
@@ -145,8 +157,25 @@ def is_report(m):
     return m.get("message_type") == REPORT
 
 
+_CANON = {}
+
+
+def cm(r):
+    """canon_msg of a record, computed once."""
+    k = id(r)
+    v = _CANON.get(k)
+    if v is None:
+        v = _CANON[k] = canon_msg(r.msg)
+    return v
+
+
 def oracle_seq(rc):
+    _CANON.clear()
     S = rc.ref.records
+    offers = {}          # (call, canon) -> [(dest index, record)]
+    for di, d in enumerate(rc.all_dests):
+        for x in d.records:
+            offers.setdefault((x.call, cm(x)), []).append((di, x))
     # 1. the non-report messages are exactly the program's emissions, in order
     emitted = [lab for (_seq, _cid, lab) in rc.returns
                if isinstance(lab, tuple) and lab[0] in ("start", "end", "msg", "tb")]
@@ -168,8 +197,8 @@ def oracle_seq(rc):
             if any(a < r.seq and (b is None or r.seq < b) for a, b in d.intervals):
                 want.append(r)
         have = d.records
-        wl = [canon_msg(r.msg) for r in want]
-        hl = [canon_msg(r.msg) for r in have]
+        wl = [cm(r) for r in want]
+        hl = [cm(r) for r in have]
         if wl != hl:
             kind = "missed" if len(hl) < len(wl) else ("extra" if len(hl) > len(wl) else "order")
             n = min(len(hl), len(wl))
@@ -181,12 +210,8 @@ def oracle_seq(rc):
                                                             wl[i][:300] if i < len(wl) else None))
         # registration order: a destination registered earlier is called earlier
     for r in S:
-        offers = []
-        for d in rc.all_dests:
-            for x in d.records:
-                if x.call == r.call and canon_msg(x.msg) == canon_msg(r.msg):
-                    offers.append((x.seq, rc.all_dests.index(d)))
-        order = [i for _s, i in sorted(offers)]
+        offs = [(x.seq, di) for di, x in offers.get((r.call, cm(r)), ())]
+        order = [i for _s, i in sorted(offs)]
         if order != sorted(order):
             raise Violation("registration_order", "destinations were called in order %s for one message" % order)
     # 3. reports: exactly one per raising offer of a non-report, none for reports.  The property does not
@@ -198,12 +223,10 @@ def oracle_seq(rc):
     for i, x in enumerate(S):
         if is_report(x.msg):
             continue
-        raised = []
-        for d in rc.all_dests:
-            for o in d.records:
-                if o.raised is not None and o.call == x.call and canon_msg(o.msg) == canon_msg(x.msg):
-                    raised.append((o.seq, o.raised))
+        raised = [(o.seq, o.raised) for _di, o in offers.get((x.call, cm(x)), ()) if o.raised is not None]
         raised.sort(key=lambda t: t[0])
+        if not raised:
+            continue
         key = "\"'task_level'\": '%s'" % (x.msg["task_level"],)
         uid = "\"'task_uuid'\": \"'%s'\"" % (x.msg["task_uuid"],)
         about_x = [(j, r) for j, r in reports if j > i and j not in used and isinstance(r.msg.get("message"), str)
